@@ -184,7 +184,7 @@ pub fn check(st: &mut Stats, c: &K) {
                 Err(e) => st.fail("C18/now/OracleDate", format!("clock {} -> {:?}", exp_ts, e)),
             }
             // a time of day becomes that time on the current local date
-            for t in [0i64, 1, 43_200_000_000, 3_723_000_004, DAY_US - 1] {
+            for t in [0i64, 1, 43_200_000_000, 3_723_000_004, DAY_US - 1, 1 << 32, DAY_US - (1 << 32), (1 << 36) + 1, DAY_US - 20 * (1i64 << 32)] {
                 let tm = Time::try_from_usecs(t).expect("time");
                 st.op(Op::TS_try_from_time);
                 match Timestamp::try_from(tm) {
